@@ -175,6 +175,20 @@ theorem C01_join (env : Env) (d l : J) (sep : String) (items : List J) (ss : Lis
   rw [resolve_fn _ _ _ (by decide), eachOf_two, hd, hl]
   unfold applyFn; simp only [ro_join]; simp [pyStrsOf_of_strsOf items ss hs]
 
+/-- C01_join_scalars: members that are not text (numbers and booleans a mapping holds, handed over raw by
+    `Fn::FindInMap`) are joined as the text they render to in a template: `true` / `false`, never Python's `True` (D41) -/
+theorem C01_join_scalars (env : Env) (d l : J) (sep : String) (items : List J) (ss : List String)
+    (hd : Spec.resolve env d = some (.str sep)) (hl : Spec.resolve env l = some (.arr items))
+    (hs : pyStrsOf items = some ss) :
+    Spec.resolve env (.obj [("Fn::Join", .arr [d, l])]) =
+      some (.str (String.ofList (join sep.toList (ss.map String.toList)))) := by
+  rw [resolve_fn _ _ _ (by decide), eachOf_two, hd, hl]
+  unfold applyFn; simp only [ro_join]; simp [hs]
+
+theorem C01_join_scalars_example :
+    pyStrsOf [.str "x", .bool true, .bool false, .int 1, .num "1.5"] = some ["x", "true", "false", "1", "1.5"] := by
+  decide +kernel
+
 /-- C01_split: the pieces of the resolved string between occurrences of the (non-empty) delimiter -/
 theorem C01_split (env : Env) (d s : J) (sep src : String)
     (hd : Spec.resolve env d = some (.str sep)) (hs : Spec.resolve env s = some (.str src))
